@@ -37,3 +37,36 @@ func VerifLocalSeq(c *Conn) []uint64 {
 func VerifHandshakeCacheLen(c *Conn) int {
 	return c.handshakeCache.VerifLen()
 }
+
+// VerifSession is the negotiated view of one endpoint (overlay only).
+type VerifSession struct {
+	Version            uint16
+	LocalCID           []byte
+	RemoteCID          []byte
+	LocalEpoch         uint16
+	RemoteEpoch        uint16
+	ExtendedMasterSec  bool
+	Established        bool
+	NegotiatedProtocol string
+}
+
+// VerifSessionOf reads the negotiated view at a quiescent point.
+func VerifSessionOf(c *Conn) VerifSession {
+	c.lock.RLock()
+	defer c.lock.RUnlock()
+	common := dtlsstate.CommonState(c.state)
+	v := VerifSession{
+		Version:            uint16(common.LocalVersion.Major)<<8 | uint16(common.LocalVersion.Minor),
+		LocalCID:           append([]byte(nil), common.LocalConnectionID()...),
+		RemoteCID:          append([]byte(nil), common.RemoteConnectionID...),
+		LocalEpoch:         common.LocalEpoch(),
+		RemoteEpoch:        common.RemoteEpoch(),
+		Established:        c.isHandshakeCompletedSuccessfully(),
+		NegotiatedProtocol: common.NegotiatedProtocol,
+	}
+	if s12, ok := c.state.(*dtlsstate.State); ok {
+		v.ExtendedMasterSec = s12.ExtendedMasterSecret
+	}
+
+	return v
+}
